@@ -373,6 +373,12 @@ func init() {
 				if before.PhString == after.PhString && kind != 1 {
 					continue // the change did not alter the message content after all (e.g. equal placeholders swapped)
 				}
+				if before.ID == after.ID && !before.Ambiguous && !after.Ambiguous {
+					// the official algorithm itself gives both contents one id: outside plurals it fingerprints placeholder
+					// names without braces, so "{$b}B" and "B{$b}" are both "BB". An id that follows it cannot differ here.
+					ctx.Obs("official_algorithm_collisions", 1)
+					continue
+				}
 				obs, err := c10Compile(c10File([]*ref.Msg{m3}, 0))
 				if err != nil || len(obs) != 1 {
 					continue
